@@ -375,14 +375,21 @@ Section Sem.
       destruct Hp as [-> | ->]; cbn [pop_eqb] in H.
       - (* plus *)
         cbn [den2 int_ty] in Hd. injection Hd as <-.
-        destruct (positive tbl l) as [x|] eqn:Pl.
-        + (* (-x) + r  ==>  r - x, operands exchanged *)
+        destruct (positive tbl l) as [x|] eqn:Pl; [destruct (negb (has_fx l) && negb (has_fx r)) eqn:Pg|].
+        + (* (-x) + r  ==>  r - x, operands exchanged: both without side effect *)
           destruct (make_binary tbl OpMinus FSInt r x) as [e0|] eqn:Em; [|discriminate].
           injection H as <- Hok. cbn [negb orb] in Hok.
           destruct (swap_commute l r s vl s1 vr s2 Hok El Er) as [s1' [Er' El']].
           destruct (positive_sound l x s1' vl s2 Pl El' Tl) as [vx [Ex [Tx Hv]]].
           apply (make_binary_sound OpMinus FSInt r x e0 s vr s1' vx s2 _ Em Er' Ex Tr Tx).
           cbn [den2 int_ty]. f_equal. subst vl. apply in_sint in Tr, Tx. unfold red, wrap. lia.
+        + (* l is a negation but an operand has a side effect: only the right operand is looked at *)
+          destruct (positive tbl r) as [y|] eqn:Pr; [|discriminate].
+          destruct (make_binary tbl OpMinus FSInt l y) as [e0|] eqn:Em; [|discriminate].
+          assert (He : e0 = e) by (injection H; auto). subst e0.
+          destruct (positive_sound r y s1 vr s2 Pr Er Tr) as [vx [Ex [Tx Hv]]].
+          apply (make_binary_sound OpMinus FSInt l y e s vl s1 vx s2 _ Em El Ex Tl Tx).
+          cbn [den2 int_ty]. f_equal. subst vr. apply in_sint in Tl, Tx. unfold red, wrap. lia.
         + destruct (positive tbl r) as [x|] eqn:Pr; [|discriminate].
           destruct (make_binary tbl OpMinus FSInt l x) as [e0|] eqn:Em; [|discriminate].
           assert (He : e0 = e) by (injection H; auto). subst e0.
@@ -650,7 +657,7 @@ Section Sem.
       - (* not (x op y)  ==>  y dual x *)
         destruct (find_info tbl op2) as [j|] eqn:Ej; [|discriminate].
         destruct (find_info_ok _ _ Ej) as [Hm Hj]. subst op2.
-        destruct (negb (pop_eqb (field odual (bop j)) OpNone) && (negb (has_fx x) || negb (has_fx y))) eqn:G; [|discriminate].
+        destruct (negb (pop_eqb (field odual (bop j)) OpNone) && (negb (has_fx x) && negb (has_fx y))) eqn:G; [|discriminate].
         destruct (make_binary tbl (field odual (bop j)) (btype j) y x) as [e0|] eqn:Em; [|discriminate].
         injection H as <- Hok.
         rewrite ev_bcall2 in Ea. destruct (ev s x) as [[vx sx]|] eqn:Ex; [|discriminate].
@@ -845,6 +852,120 @@ Section Sem.
   End Tbl.
 End Sem.
 
+(* ---------------------------------------------------------------- the ghost flag is always true *)
+
+Section Flag.
+  Variable tbl : list bvrow.
+
+  Lemma pure_swap_ok l r : negb (has_fx l) && negb (has_fx r) = true -> swap_ok l r = true.
+  Proof. intro H. unfold swap_ok. rewrite H. reflexivity. Qed.
+
+  Lemma additive_flag t p l r e ok : additive tbl t p l r = Some (e, ok) -> ok = true.
+  Proof.
+    unfold additive.
+    destruct (pop_eqb p OpPlus) eqn:Ep.
+    - destruct (positive tbl l) as [x|] eqn:Pl; [destruct (negb (has_fx l) && negb (has_fx r)) eqn:G|].
+      + destruct (make_binary tbl OpMinus t r x); [|discriminate]. intro H. injection H as _ <-.
+        rewrite (pure_swap_ok l r G). reflexivity.
+      + destruct (positive tbl r); [|discriminate]. destruct (make_binary tbl OpMinus t l e0); [|discriminate].
+        intro H. injection H as _ <-. reflexivity.
+      + destruct (positive tbl r); [|discriminate]. destruct (make_binary tbl OpMinus t l e0); [|discriminate].
+        intro H. injection H as _ <-. reflexivity.
+    - destruct (positive tbl r); [|discriminate]. destruct (make_binary tbl OpPlus t l e0); [|discriminate].
+      intro H. injection H as _ <-. reflexivity.
+  Qed.
+
+  Lemma times_flag t l r e ok : times t l r = Some (e, ok) -> ok = true.
+  Proof.
+    unfold times. destruct t; try discriminate. destruct (is_const l).
+    - destruct l as [tl zl| | | |]; try discriminate. destruct tl; try discriminate.
+      destruct (shift_of zl); [|discriminate]. intro H. injection H as _ <-. reflexivity.
+    - destruct r as [tr zr| | | |]; try discriminate. destruct tr; try discriminate.
+      destruct (shift_of zr); [|discriminate]. intro H. injection H as _ <-. reflexivity.
+  Qed.
+
+  Lemma binary_flag op l r e ok : binary tbl op l r = Some (e, ok) -> ok = true.
+  Proof.
+    unfold binary. destruct (find_info tbl op) as [i|]; [|discriminate].
+    destruct (if pop_eqb (bop i) OpPlus || pop_eqb (bop i) OpMinus then additive tbl (btype i) (bop i) l r else None)
+      as [[ea oka]|] eqn:Ea.
+    { intro H. injection H as _ <-. destruct (pop_eqb (bop i) OpPlus || pop_eqb (bop i) OpMinus); [|discriminate].
+      apply (additive_flag _ _ _ _ _ _ Ea). }
+    destruct (if pop_eqb (bop i) OpTimes then times (btype i) l r else None) as [[et okt]|] eqn:Et.
+    { intro H. injection H as _ <-. destruct (pop_eqb (bop i) OpTimes); [|discriminate].
+      apply (times_flag _ _ _ _ _ Et). }
+    match goal with |- match ?c with _ => _ end = _ -> _ => destruct c as [[n g]|] end; [|discriminate].
+    destruct (pop_eqb n OpNone); [discriminate|].
+    destruct (make_unary tbl n (btype i) g); [|discriminate]. intro H. injection H as _ <-. reflexivity.
+  Qed.
+
+  Lemma unary_flag op a e ok : unary tbl op a = Some (e, ok) -> ok = true.
+  Proof.
+    unfold unary. destruct a as [| | |op2 args|]; try discriminate. destruct args; [discriminate|].
+    destruct (find_info tbl op); [|discriminate]. destruct (find_info tbl op2); [|discriminate].
+    destruct (pop_eqb _ _); [|discriminate]. intro H. injection H as _ <-. reflexivity.
+  Qed.
+
+  Lemma negate_flag a e ok : negate tbl a = Some (e, ok) -> ok = true.
+  Proof.
+    unfold negate. destruct a as [| | |op2 args|]; try discriminate.
+    destruct args as [|x [|y [|z r]]]; try discriminate.
+    - destruct (String.eqb op2 "BoolNot"); [|discriminate]. intro H. injection H as _ <-. reflexivity.
+    - destruct (find_info tbl op2) as [j|]; [|discriminate].
+      destruct (negb (pop_eqb (field odual (bop j)) OpNone) && (negb (has_fx x) && negb (has_fx y))) eqn:G; [|discriminate].
+      destruct (make_binary tbl _ _ y x); [|discriminate]. intro H. injection H as _ <-.
+      apply andb_true_iff in G as [_ G]. apply pure_swap_ok. exact G.
+  Qed.
+
+  Lemma logic_flag op args e ok : bcall_logic tbl op args = Some (e, ok) -> ok = true.
+  Proof.
+    unfold bcall_logic.
+    destruct (String.eqb op "BoolFalse"); [intro H; injection H as _ <-; reflexivity|].
+    destruct (String.eqb op "BoolTrue"); [intro H; injection H as _ <-; reflexivity|].
+    destruct (String.eqb op "BoolNot").
+    { destruct args; [discriminate|]. apply negate_flag. }
+    destruct (String.eqb op "BoolAnd").
+    { destruct args as [|a [|b r]]; try discriminate.
+      repeat match goal with
+             | |- (if ?c then _ else _) = _ -> _ => destruct c
+             end; try discriminate; intro H; injection H as _ <-; reflexivity. }
+    destruct (String.eqb op "BoolOr"); [|discriminate].
+    destruct args as [|a [|b r]]; try discriminate.
+    repeat match goal with
+           | |- (if ?c then _ else _) = _ -> _ => destruct c
+           end; try discriminate; intro H; injection H as _ <-; reflexivity.
+  Qed.
+
+  Lemma rule_flag e e' ok : peep_rule tbl e = Some (e', ok) -> ok = true.
+  Proof.
+    destruct e as [| | |op args|t a]; cbn [peep_rule]; try discriminate.
+    - unfold peep_bcall. destruct (bcall_logic tbl op args) as [[e0 ok0]|] eqn:El.
+      + intro H. injection H as _ <-. apply (logic_flag _ _ _ _ El).
+      + destruct args as [|a [|b [|c r]]]; try discriminate; [apply unary_flag|apply binary_flag].
+    - unfold peep_cast. destruct (fty_eqb _ _); [intro H; injection H as _ <-; reflexivity|].
+      destruct a; try discriminate. intro H. injection H as _ <-. reflexivity.
+  Qed.
+
+  (* peep_flag: with the guards of the current source no unsafe exchange can happen *)
+  Lemma peep_aux_flag : forall fuel e, snd (peep_aux tbl fuel e) = true.
+  Proof.
+    induction fuel as [|k IH]; intro e; [reflexivity|]. cbn [peep_aux].
+    set (ch := match e with
+               | BCall op args => let rs := map (peep_aux tbl k) args in (BCall op (map fst rs), forallb snd rs)
+               | Cast t a => let '(a', ok) := peep_aux tbl k a in (Cast t a', ok)
+               | _ => (e, true)
+               end).
+    assert (Hch : snd ch = true).
+    { subst ch. destruct e as [t z|t x|t x f|op args|t a]; cbn [snd]; try reflexivity.
+      - apply forallb_forall. intros r Hr. apply in_map_iff in Hr as [a [<- _]]. apply IH.
+      - specialize (IH a). destruct (peep_aux tbl k a) as [a' ok]. exact IH. }
+    destruct ch as [e1 ok1]. cbn [snd] in Hch. subst ok1.
+    destruct (peep_rule tbl e1) as [[e2 ok2]|] eqn:Er; [|reflexivity].
+    specialize (IH e2). destruct (peep_aux tbl k e2) as [e3 ok3]. cbn [snd] in *. subst ok3.
+    rewrite (rule_flag _ _ _ Er). reflexivity.
+  Qed.
+End Flag.
+
 (* ---------------------------------------------------------------- the pass over the generated tables *)
 
 Section Pass.
@@ -862,6 +983,38 @@ Section Pass.
     - destruct ff; [exact bvals_fast_ok|exact bvals_slow_ok].
     - exact ops_ok.
   Qed.
+
+  (* full strength: no hypothesis on the run *)
+  Theorem peep_preserves_full ff e :
+    forall s r, ev S rd lv call s e = Some r -> ev S rd lv call s (fst (peep ff e)) = Some r.
+  Proof.
+    intros s r E. apply (peep_preserves_l ff e (fst (peep ff e))); [|exact E].
+    pose proof (peep_aux_flag (peep_tbl ff) (4 * size e + 8) e) as F. unfold peep.
+    destruct (peep_aux (peep_tbl ff) (4 * size e + 8) e) as [e' ok]. cbn [fst snd] in *. subst ok. reflexivity.
+  Qed.
+
+  (* peep_rule_sound for the two rules that exchange operands, guard as coded *)
+  Theorem negate_rule_sound ff a e ok :
+    negate (peep_tbl ff) a = Some (e, ok) ->
+    forall s v s1, ev S rd lv call s (BCall "BoolNot" [a]) = Some (v, s1) -> ev S rd lv call s e = Some (v, s1).
+  Proof.
+    intros H s v s1 E. pose proof (negate_flag _ _ _ _ H) as ->.
+    apply (negate_sound S rd lv call (peep_tbl ff)) with (a := a); try assumption.
+    - destruct ff; [exact bvals_fast_ok|exact bvals_slow_ok].
+    - exact ops_ok.
+  Qed.
+
+  Theorem additive_rule_sound ff t p l r e ok :
+    additive (peep_tbl ff) t p l r = Some (e, ok) -> (p = OpPlus \/ p = OpMinus) ->
+    forall s vl s1 vr s2 v, ev S rd lv call s l = Some (vl, s1) -> ev S rd lv call s1 r = Some (vr, s2) ->
+      in_ty_b t vl = true -> in_ty_b t vr = true -> den2 p t vl vr = Some v ->
+      ev S rd lv call s e = Some (v, s2).
+  Proof.
+    intros H Hp s vl s1 vr s2 v El Er Tl Tr Hd. pose proof (additive_flag _ _ _ _ _ _ _ H) as ->.
+    apply (additive_sound S rd lv call (peep_tbl ff)) with (t := t) (p := p) (l := l) (r := r) (vl := vl) (s1 := s1) (vr := vr);
+      try assumption.
+    destruct ff; [exact bvals_fast_ok|exact bvals_slow_ok].
+  Qed.
 End Pass.
 
 (* ---------------------------------------------------------------- what is NOT true of the code *)
@@ -874,25 +1027,24 @@ Definition r_rd (s : rS) (x : nat) : Z := s.
 Definition r_lv (x : nat) (s : rS) : Z := 0.
 Definition r_call (x : nat) (s : rS) : Z * rS := (5, 10 * s + Z.of_nat x).
 
-(* peepNegate:  not (G <= h())  ==>  h() < G   guarded only by "one operand has no side effect":
-   the operand without side effect READS what the other one writes *)
+(* Regression items (fix 159355b in /repo): the two rules that exchange operands are refused
+   when an operand has a side effect.  Before the fix peepNegate turned  not (G <= h())  into
+   h() < G  (results (0, 11) against (1, 11) on this machine from state 1) and peepAdditiveOp
+   turned  (-f()) + g()  into  g() - f()  (final states 12 against 21). *)
 Definition ex_negate : expr :=
   BCall "BoolNot" [BCall "SIntLE" [Var FSInt 0; Leaf FSInt 1 true]].
-
-Lemma peep_negate_swap_refuted :
-  peep false ex_negate = (BCall "SIntLT" [Leaf FSInt 1 true; Var FSInt 0], false) /\
-  ev rS r_rd r_lv r_call 1 ex_negate = Some (0, 11) /\
-  ev rS r_rd r_lv r_call 1 (fst (peep false ex_negate)) = Some (1, 11).
-Proof. vm_compute. repeat split; reflexivity. Qed.
-
-(* peepAdditiveOp:  (-f()) + g()  ==>  g() - f()   with no guard at all *)
 Definition ex_additive : expr :=
   BCall "SIntPlus" [BCall "SIntNegate" [Leaf FSInt 1 true]; Leaf FSInt 2 true].
 
-Lemma peep_additive_swap_refuted :
-  peep false ex_additive = (BCall "SIntMinus" [Leaf FSInt 2 true; Leaf FSInt 1 true], false) /\
-  ev rS r_rd r_lv r_call 0 ex_additive = Some (0, 12) /\
-  ev rS r_rd r_lv r_call 0 (fst (peep false ex_additive)) = Some (0, 21).
+Lemma swap_rules_guarded :
+  peep false ex_negate = (ex_negate, true) /\
+  peep false ex_additive = (ex_additive, true) /\
+  peep false (BCall "BoolNot" [BCall "SIntLE" [Var FSInt 0; Leaf FSInt 1 false]])
+  = (BCall "SIntLT" [Leaf FSInt 1 false; Var FSInt 0], true) /\
+  peep false (BCall "SIntPlus" [BCall "SIntNegate" [Var FSInt 1]; Leaf FSInt 2 false])
+  = (BCall "SIntMinus" [Leaf FSInt 2 false; Var FSInt 1], true) /\
+  ev rS r_rd r_lv r_call 1 ex_negate = Some (0, 11) /\
+  ev rS r_rd r_lv r_call 0 ex_additive = Some (0, 12).
 Proof. vm_compute. repeat split; reflexivity. Qed.
 
 (* peep_drop_needs_pure: a rule that drops an operand is sound only for an operand without
